@@ -796,6 +796,10 @@ Section WithCfg.
     w <- dedup_loop (Z.to_nat l) k d l 1 1 sc ;;
     truncate v w.
 
+  (* the two-argument closure of dedup_by called on the elements behind p and q *)
+  Definition pair_call (k : same_kind) (p q : eptr) (sc : list answer) : M (bool * list answer) :=
+    a <- slot_read p ;; b <- slot_read q ;; same_call k a b sc.
+
   (* the predicate of retain / drain_filter called on the element behind p: the script answers
      (used by the world of EquivRetain.v; retain_loop below inlines the same sequence) *)
   Definition pred_call (p : eptr) (sc : list answer) : M (bool * list answer) :=
